@@ -52,7 +52,11 @@ func TestVerifC13H(t *testing.T) {
 					if rep.OutOfBudget() {
 						return
 					}
-					c13RunHTTP(rep, srv, a, ap, N, byTime, quick)
+					c13RunHTTP(rep, srv, a, ap, N, byTime, quick, false)
+					if ap == "testpic_2s" && !byTime {
+						// low-latency chunked delivery of the same stream must carry the same events
+						c13RunHTTP(rep, srv, a, ap, N, byTime, quick, true)
+					}
 				}
 			}
 		}
@@ -71,9 +75,12 @@ func TestVerifC13H(t *testing.T) {
 	}
 }
 
-func c13RunHTTP(rep *vh.Report, srv *Server, a *vref.VAsset, asset string, N int, byTime bool, quick bool) {
+func c13RunHTTP(rep *vh.Report, srv *Server, a *vref.VAsset, asset string, N int, byTime bool, quick bool, chunked bool) {
 	v := a.Ref
 	parts := []string{fmt.Sprintf("scte35_%d", N)}
+	if chunked {
+		parts = append(parts, "ato_1", "chunkdur_0.5")
+	}
 	if byTime {
 		parts = append([]string{"segtimeline_1"}, parts...)
 	}
@@ -228,15 +235,26 @@ func c13RunHTTP(rep *vh.Report, srv *Server, a *vref.VAsset, asset string, N int
 					if c > 1 {
 						kind = "duplicate"
 					}
-					rep.Violate("C13.once", fmt.Sprintf("%s-event:N%d:offset%d", kind, N, o), fmt.Sprintf("%s scte35_%d byTime=%v: splice at %d s (minute %d + %d s) is carried by %d video segments", asset, N, byTime, sp, m, o, c),
+					rep.Violate("C13.once", fmt.Sprintf("%s-event:N%d:offset%d%s", kind, N, o, vIf(chunked, ":chunked", "")), fmt.Sprintf("%s scte35_%d byTime=%v: splice at %d s (minute %d + %d s) is carried by %d video segments", asset, N, byTime, sp, m, o, c),
 						map[string]any{"asset": asset, "perMinute": N, "splice_s": sp})
 				}
 			}
 		}
 	}
 	// MPD signalling
-	for _, mn := range []string{vMPDNameFor(a, v.ID)} {
+	// ... also in combination with the other parameters that add elements to the video AdaptationSet or restructure the MPD
+	for _, comb := range []string{"", "annexI_a=1", "annexI_a=1,b=2", "periods_60", "continuous_1/periods_60", "patch_60", "utc_direct", "timesubsstpp_en", "ato_1/chunkdur_0.5", "eccp_cenc", "mup_2"} {
+		mn := vMPDNameFor(a, v.ID)
+		if comb != "" && (asset != "testpic_2s" || chunked) {
+			continue
+		}
 		u := fmt.Sprintf("%s/%s/%s?nowMS=100000", prefix, asset, mn)
+		if comb != "" {
+			u = fmt.Sprintf("%s/%s/%s/%s?nowMS=100000", prefix, comb, asset, mn)
+			if strings.HasPrefix(comb, "annexI_") { // Annex I parameters must be repeated in the query string
+				u += "&" + strings.ReplaceAll(strings.TrimPrefix(comb, "annexI_"), ",", "&")
+			}
+		}
 		r := vGet(srv, u)
 		rep.AddExecs(1)
 		m, err := vref.ParseMPD(r.Body)
@@ -259,7 +277,7 @@ func c13RunHTTP(rep *vh.Report, srv *Server, a *vref.VAsset, asset string, N int
 				}
 			}
 			if has != isVideo {
-				rep.Violate("C13.mpd", fmt.Sprintf("inband-event-stream:video=%v:announced=%v", isVideo, has), fmt.Sprintf("%s: AdaptationSet %s", u, as.ID), map[string]any{"url": u})
+				rep.Violate("C13.mpd", fmt.Sprintf("inband-event-stream:video=%v:announced=%v%s", isVideo, has, vIf(comb != "", ":combined", "")), fmt.Sprintf("%s: AdaptationSet %s", u, as.ID), map[string]any{"url": u})
 			}
 		}
 	}
